@@ -76,6 +76,66 @@ theorem remove_refines {s s' : St} {q : Quad} {b : Bool} (h : Inv s) (hlo : look
     b = qmem q (abs s) ∧ SameSet (abs s') ((abs s).filter (fun x => !quadEq x q)) :=
   ⟨remove_flag h hlo hg hr, remove_abs h hlo hg hr⟩
 
+/-! ### user-facing corollaries of the two refinement steps -/
+
+/-- a quad that was just inserted is contained (whether or not it was there before) -/
+theorem insert_then_contains {s s' : St} {q : Quad} {b : Bool} (h : Inv s) (hlo : lookupOrderOK s)
+    (hg : s.shape.n = 3 → q.g = none) (hi : Store.insert s q = (s', some b)) :
+    qmem q (abs s') = true := by
+  rw [(insert_refines h hlo hg hi).2 q, qmem_cons, quadEq_refl]; rfl
+
+/-- a quad that was just removed is not contained any more: `remove` drops EVERY stored quad equal
+to it modulo `Term::eq`, not only one representative -/
+theorem remove_then_absent {s s' : St} {q : Quad} {b : Bool} (h : Inv s) (hlo : lookupOrderOK s)
+    (hg : s.shape.n = 3 → q.g = none) (hr : Store.remove s q = (s', b)) :
+    qmem q (abs s') = false := by
+  have hf : Resp (fun x => !quadEq x q) := fun a c hac => by
+    show (!quadEq a q) = (!quadEq c q); rw [quadEq_congr_left q hac]
+  rw [(remove_refines h hlo hg hr).2 q, qmem_filter hf, quadEq_refl]; rfl
+
+/-- `insert` is idempotent: a second insertion of the same quad (or of any quad equal to it modulo
+`Term::eq`) that succeeds reports "no change" and leaves the same set -/
+theorem insert_idempotent {s s' s'' : St} {q q' : Quad} {b b' : Bool} (h : Inv s) (hlo : lookupOrderOK s)
+    (hg : s.shape.n = 3 → q.g = none) (hi : Store.insert s q = (s', some b))
+    (hg' : s.shape.n = 3 → q'.g = none) (hqq : quadEq q' q = true)
+    (hi' : Store.insert s' q' = (s'', some b')) :
+    b' = false ∧ SameSet (abs s'') (abs s') := by
+  have hsh : s'.shape = s.shape := by have := insert_shape s q; rw [hi] at this; exact this
+  have h1 := inv_step_insert q h hlo
+  rw [hi] at h1
+  have hc : qmem q' (abs s') = true := by
+    rw [qmem_congr (abs s') hqq]; exact insert_then_contains h hlo hg hi
+  have h2 := insert_refines h1.1 h1.2 (by rw [hsh]; exact hg') hi'
+  refine ⟨by rw [h2.1, hc]; rfl, fun x => ?_⟩
+  rw [h2.2 x, qmem_cons]
+  cases hx : quadEq q' x with
+  | false => rfl
+  | true => rw [← qmem_congr (abs s') hx, hc]; rfl
+
+/-- inserting an absent quad and removing it again gives back the set held before -/
+theorem insert_remove_restores {s s' s'' : St} {q : Quad} {b b' : Bool} (h : Inv s) (hlo : lookupOrderOK s)
+    (hg : s.shape.n = 3 → q.g = none) (habs : qmem q (abs s) = false)
+    (hi : Store.insert s q = (s', some b))
+    (hr : Store.remove s' q = (s'', b')) :
+    b = true ∧ b' = true ∧ SameSet (abs s'') (abs s) := by
+  have hsh : s'.shape = s.shape := by have := insert_shape s q; rw [hi] at this; exact this
+  have h1 := inv_step_insert q h hlo
+  rw [hi] at h1
+  have hI := insert_refines h hlo hg hi
+  have hR := remove_refines h1.1 h1.2 (by rw [hsh]; exact hg) hr
+  have hf : Resp (fun x => !quadEq x q) := fun a c hac => by
+    show (!quadEq a q) = (!quadEq c q); rw [quadEq_congr_left q hac]
+  refine ⟨by rw [hI.1, habs]; rfl, by rw [hR.1]; exact insert_then_contains h hlo hg hi, fun x => ?_⟩
+  rw [hR.2 x, qmem_filter hf, hI.2 x, qmem_cons]
+  cases hx : quadEq x q with
+  | false => rw [quadEq_symm q x, hx]; rfl
+  | true => rw [qmem_congr (abs s) hx, habs]; simp
+
+/-- the hypotheses are met by a concrete history: insert an absent quad into a fresh FastDataset -/
+example : ∃ s' b, Store.insert (St.new Gen.genericFastDataset.shape Gen.maxU16)
+      ⟨.iri ['a'], .iri ['p'], .lit ['1'] ['d'], some (.iri ['g'])⟩ = (s', some b) ∧ b = true := by
+  refine ⟨_, _, rfl, ?_⟩; decide
+
 /-! ### matchers -/
 
 /-- `TermMatcher::constant()` is `Some(t)` only if the matcher matches exactly the terms equal to `t`
